@@ -137,7 +137,7 @@ class BrownianStock(BasePrimary):
 
         spot = generate_geometric_brownian(
             n_paths=n_paths,
-            n_steps=ceil(time_horizon / self.dt + 1),
+            n_steps=ceil(time_horizon / self.dt - 1e-8) + 1,
             init_state=init_state,
             sigma=self.sigma,
             mu=self.mu,
